@@ -9,6 +9,7 @@ from .node import Node, _NodeMessage
 from .proto import ByteInterval_pb2, SymbolicExpression_pb2
 from .symbolicexpression import SymAddrAddr, SymAddrConst, SymbolicExpression
 from .util import (
+    DeserializationError,
     DictLike,
     DictWrapper,
     SetWrapper,
@@ -270,6 +271,14 @@ class ByteInterval(Node):
             uuid=uuid,
             blocks=(decode_block(b) for b in proto_interval.blocks),
         )
+        # The blocks were decoded after this interval's UUID was looked up,
+        # so one of them may have claimed it in the meantime.
+        cached_node = ir.get_by_uuid(uuid)
+        if cached_node is not None:
+            raise DeserializationError(
+                "got %s for UUID %s but expected ByteInterval"
+                % (type(cached_node).__name__, uuid)
+            )
         result._add_to_uuid_cache(ir._local_uuid_cache)
         # We store the interval and IR here so we can use it later, when
         # _decode_symbolic_expressions is called.
